@@ -3,6 +3,7 @@ CONSTANTS
   CommitSeqBeforeWrite = FALSE
   FreezeBeforeMetaFlush = FALSE
   ExpireOnConsumed = TRUE
+  IgnoreOverGap = FALSE
   Writable = FALSE
   AtomicRound = FALSE
   Name = {"m1", "m2"}
